@@ -217,6 +217,26 @@ func repointedRule(d *vdev, mode string, w []string) bool {
 	return false
 }
 
+// deletionTarget: the object a `no …` / `clear configure …` command removes (or removes a line of).
+func deletionTarget(cmd string) ref {
+	w := strings.Fields(cmd)
+	if len(w) >= 4 && w[0] == "clear" && w[1] == "configure" {
+		kinds := map[string]string{"access-list": "acl", "object-group": "group", "group-policy": "gp", "tunnel-group": "tg",
+			"username": "user", "crypto ca certificate map": "certmap"}
+		return ref{kinds[strings.Join(w[2:len(w)-1], " ")], w[len(w)-1]}
+	}
+	if len(w) >= 2 && w[0] == "no" {
+		b := &block{Head: strings.Join(w[1:], " ")}
+		if k, n := headKind(b.words()); k == "interface" {
+			return ref{"interface", n}
+		}
+		if o, ok := b.defines(); ok {
+			return o
+		}
+	}
+	return ref{}
+}
+
 func unmanagedView(d *vdev, u map[ref]bool, managed map[string]bool) string {
 	var sb strings.Builder
 	for _, x := range d.Blocks {
@@ -256,9 +276,10 @@ func run(ctx *Ctx) *Result {
 	prop := ctx.Prop
 	res.Rule = "pairs (ASA device config, Netspoc target) of the VPN fragment: crypto map with 0-4 static and 0-2 dynamic entries bound to 1-2 interfaces, " +
 		"crypto ACLs, ikev1 transform-sets / ikev2 proposals, l2l tunnel-groups named by peer address (+ group-policy with vpn-filter), remote-access " +
-		"tunnel-groups with certificate maps, tunnel-group-map, webvpn certificate-group-map, group-policies with pool / split-tunnel / filter ACLs, usernames; " +
+		"tunnel-groups with certificate maps, tunnel-group-map, webvpn certificate-group-map, group-policies with pool / split-tunnel / filter ACLs, usernames, " +
+		"aaa-server + ldap attribute-map with map-value -> group-policy (never created by the tool: a device lacking them must be refused); " +
 		"device = target under generated names plus up to 6 mutations (peer missing/extra, other sequence numbers, ACL edited/replaced, transform-set " +
-		"content/twin/shared, attributes, group-policy, pool, users, tunnel-group sections, certificate map sequence numbers and rules, other crypto map " +
+		"content/twin/shared, attributes, group-policy, pool, users, tunnel-group sections, certificate map sequence numbers and rules, ldap map-values, other crypto map " +
 		"name, unbound map, left-over -DRC- objects) plus content outside Netspoc's scope (manual tunnel-group -> generated group-policy -> generated ACL/pool, " +
 		"manual group-policy, interface unknown to Netspoc with a crypto map, unmodelled webvpn lines); real drc.Main in-process; script executed command " +
 		"by command on the strict specification-side device. non-trivial = non-empty script; distinct by text of both configurations"
@@ -286,12 +307,28 @@ func run(ctx *Ctx) *Result {
 			res.Fail(map[string]any{"frag": "vpn", "pred": "drc_panic"}, "panic: "+pan, c)
 			return
 		}
+		// aaa-server and ldap attribute-map are never created by the tool: a target that needs one the device lacks must be refused
+		missingManual := ""
+		for _, o := range c.spoc.objects() {
+			if (o.kind == "aaa" || o.kind == "ldapmap") && len(c.dev.blocksOf(o)) == 0 {
+				missingManual = o.kind + " " + o.name
+			}
+		}
+		if missingManual != "" {
+			res.Eval(canon, true)
+			if status == 0 {
+				res.Fail(map[string]any{"frag": "vpn", "pred": "manual_transfer_not_demanded"}, "the device lacks "+missingManual+" but drc produced a script:\n"+out, c)
+			} else {
+				res.Count("manual-transfer-demanded")
+			}
+			return
+		}
 		if status != 0 {
+			// every generated pair is valid (complete entries, no dangling reference): a refusal is a failure of its own
 			res.Eval(canon, false)
 			res.Count("rejected-by-drc:" + drcReason(errOut))
-			if len(res.Notes) < 3 {
-				res.Notes = append(res.Notes, "drc rejected a generated pair: "+strings.TrimSpace(errOut))
-			}
+			res.Fail(map[string]any{"frag": "vpn", "pred": "valid_pair_rejected_by_drc", "reason": drcReason(errOut)},
+				"drc refuses a valid pair: "+strings.TrimSpace(errOut), c)
 			return
 		}
 		cmds := splitScript(out)
@@ -334,7 +371,7 @@ func run(ctx *Ctx) *Result {
 			}
 			return m
 		}
-		lean.check(c, out)
+		la := lean.check(c, out)
 		// execute
 		ex := &executor{d: c.dev.clone()}
 		var states []*vdev
@@ -343,8 +380,21 @@ func run(ctx *Ctx) *Result {
 				repointed = true
 			}
 			if err := ex.exec1(cmd); err != nil {
+				if la != nil && la.acc {
+					res.Disagree("vpn-device", c, "dev.go rejects command "+fmt.Sprint(i)+": "+err.Error(), "NA.Vpn.applyAll accepts the script")
+				}
 				if prop == "C08" || prop == "C01" || prop == "C10" {
 					res.Fail(sig("command_rejected_by_strict_device", "reason", reasonOf(err.Error())), fmt.Sprintf("command %d %q: %v\nscript:\n%s", i, cmd, err, out), c)
+				}
+				if prop == "C07" {
+					// the device refused: nothing changed by this command. An attempt to delete something outside
+					// Netspoc's scope is a violation all the same; otherwise go on with the rest of the script.
+					if o := deletionTarget(cmd); o.kind == "interface" || uSet[o] {
+						res.Fail(sig("deletion_of_unmanaged_object_attempted"), fmt.Sprintf("command %d %q tries to delete %s %s (refused by the device: %v)\nscript:\n%s", i, cmd, o.kind, o.name, err, out), c)
+					}
+					res.Count("c07:rejected-command-skipped")
+					states = append(states, ex.d.clone())
+					continue
 				}
 				return
 			}
@@ -355,10 +405,19 @@ func run(ctx *Ctx) *Result {
 		}
 		res.TracesVsImpl++
 		final := ex.d
+		if la != nil && !la.acc {
+			res.Disagree("vpn-device", c, "dev.go accepts the script", "NA.Vpn.applyAll rejects it")
+		}
 		if len(res.Samples) < 3 && len(cmds) > 6 {
 			res.Sample(map[string]any{"device": c.Dev, "netspoc": c.Spoc, "script": out, "mutations": c.Note})
 		}
 		if prop == "C01" {
+			if la != nil && la.acc {
+				res.Count("lean:convergence-compared")
+				if conv := final.managedView(managed) == wantView; conv != la.conv {
+					res.Disagree("vpn-view", c, fmt.Sprintf("dev.go: converged=%v", conv), fmt.Sprintf("NA.Vpn.viewOn: converged=%v", la.conv))
+				}
+			}
 			if got := final.managedView(managed); got != wantView {
 				res.Fail(sig("not_converged"), "after executing the script the managed part differs from the target:\n"+got+"-- want\n"+wantView+"-- script\n"+out, c)
 				return
@@ -367,6 +426,16 @@ func run(ctx *Ctx) *Result {
 				res.Fail(sig("leftover_generated_object"), "unreferenced generated objects remain: "+strings.Join(lo, ", ")+"\n-- script\n"+out, c)
 			}
 			out2, err2, st2, pan2 := runDrc(final.print(), c.Spoc)
+			if la != nil && la.acc {
+				impl2 := strings.Join(splitLines(out2), "|")
+				if st2 != 0 {
+					impl2 = "abort"
+				}
+				res.Count("lean:second-run-compared")
+				if impl2 != la.second {
+					res.Disagree("vpn-second-run", c, impl2, la.second)
+				}
+			}
 			if pan2 != "" || st2 != 0 {
 				res.Fail(sig("second_compare_failed", "reason", drcReason(err2)), fmt.Sprintf("second compare: exit %d %s %s", st2, pan2, err2), c)
 			} else if strings.TrimSpace(out2) != "" {
@@ -400,6 +469,9 @@ func run(ctx *Ctx) *Result {
 				if pan2 != "" {
 					res.Fail(sig("resume_drc_panic"), where+": panic "+pan2, c)
 					continue
+				}
+				if la != nil {
+					lean.checkCut(st, c.spoc, out2, st2)
 				}
 				if st2 != 0 {
 					res.Fail(sig("resume_state_not_accepted", "reason", drcReason(err2)), where+": drc rejects the intermediate device: "+strings.TrimSpace(err2)+"\n-- script\n"+out, c)
@@ -444,9 +516,9 @@ func run(ctx *Ctx) *Result {
 		res.Count("corpus")
 		runCase(c)
 	}
-	n := ctx.N(1200, 30000)
+	n := ctx.N(1500, 30000)
 	if prop == "C10" {
-		n = ctx.N(250, 5000)
+		n = ctx.N(300, 5000)
 	}
 	for i := 0; i < n; i++ {
 		g := &gen{r: ctx.Rng.Fork()}
